@@ -36,6 +36,18 @@ Theorem c08_root_once_on_pass : forall j p ts en tr,
 Proof. exact root_once_on_pass. Qed.
 Print Assumptions c08_root_once_on_pass.
 
+(* the whole assertion (Sem.exec_top, fn expand): a root `_` asserts nothing and formats nothing, and the asserted expression is
+   evaluated exactly once; every other root pattern is its own expansion (to which the theorems above apply) *)
+Theorem c08_root_wildcard_evaluates_once : forall j id ts en,
+  exec_top j (PWild id) ts en = Some ([], [EvRoot]).
+Proof. exact root_wildcard_evaluates_once. Qed.
+Print Assumptions c08_root_wildcard_evaluates_once.
+
+Theorem c08_whole_assertion_is_the_root_expansion : forall j p ts en,
+  is_wild p = false -> exec_top j p ts en = exec (expand j p (VRoot ts)) en.
+Proof. exact exec_top_is_exec. Qed.
+Print Assumptions c08_whole_assertion_is_the_root_expansion.
+
 (* the known classes, one witness each (evaluated in the model; replayed on the real code
    by the check) *)
 Definition root_count (p : pat) (v : value) : option nat :=
@@ -46,7 +58,8 @@ Proof. vm_compute. reflexivity. Qed.
 Lemma known_c08_shape_mismatch_twice :
   root_count (PEnum 0 (pth "Some") [(None, PWild 1)]) (VVariantV "None" []) = Some 2.
 Proof. vm_compute. reflexivity. Qed.
-Lemma known_c08_wildcard_zero : root_count (PWild 0) (VInt 3) = Some 0.
+(* repaired (fix F18): a root `_` used to expand to nothing, so `assert_struct!(expr(), _)` never evaluated expr() *)
+Lemma c08_wildcard_old_zero : root_count (PWild 0) (VInt 3) = Some 0.
 Proof. vm_compute. reflexivity. Qed.
 Lemma known_c08_wildcard_struct_per_field :
   root_count (PStruct 0 None true [(fld "a", PSimple 1 (ulit "1")); (fld "b", PSimple 2 (ulit "2"))])
